@@ -76,7 +76,11 @@ func (v JV) coq() string {
 		if err != nil {
 			panic("number text " + v.N)
 		}
-		return "(JNum " + cn(bits(f)) + ")"
+		iv := "None" // jx Int64 takes integer literals within int64 only
+		if z, err := strconv.ParseInt(v.N, 10, 64); err == nil && !strings.HasPrefix(v.N, "+") {
+			iv = "(Some " + cz(z) + ")"
+		}
+		return "(JNum " + cn(bits(f)) + " " + iv + ")"
 	case "str":
 		return "(JStr " + cstr(Str(v.S)) + ")"
 	case "arr":
@@ -142,7 +146,28 @@ func docOracles(doc JV) (rfc string, letters string, digits string) {
 	return clist(rows), clist(ls), clist(ds)
 }
 
-var damageKeys = []string{"stream", "labels", "values", "entries", "ts", "timestamp", "line", "value", "streams", "x"}
+// tagLetters: the runes outside ASCII of every string under ddtags for which unicode.IsLetter (= \p{L}) holds
+func tagLetters(doc JV) string {
+	var ls []string
+	seen := map[string]bool{}
+	doc.walk(func(key string, v JV) {
+		if key != "ddtags" || v.K != "str" {
+			return
+		}
+		for i := 0; i < len(v.S); {
+			rn, w := utf8.DecodeRuneInString(v.S[i:])
+			if rn >= utf8.RuneSelf && !(rn == utf8.RuneError && w == 1) && unicode.IsLetter(rn) && !seen[v.S[i:i+w]] {
+				seen[v.S[i:i+w]] = true
+				ls = append(ls, cstr(Str(v.S[i:i+w])))
+			}
+			i += w
+		}
+	})
+	return clist(ls)
+}
+
+var damageKeys = []string{"stream", "labels", "values", "entries", "ts", "timestamp", "line", "value", "streams", "x",
+	"ddtags", "ddsource", "message", "service", "hostname", "source_type"}
 var damageTs = []string{"12a", "-5", "2021-01-01", "", "1700000000000000000", "2023-11-14T22:13:20.5Z", "2023-11-14t22:13:20z", "+7", "1e9", "99999999999999999999"}
 
 func junk(r *rand.Rand) JV {
